@@ -206,3 +206,4 @@ REPLAY = [("C13.kmeans", "kmeans_repro.py", "empty_cluster", {}), ("C13.gmm.init
           ("C13.gmm.weights", "gmm_repro.py", "starved", {"trainer": "ml"})]
 TRUSTED = ["np.clip / np.where / np.maximum as in the NumPy model", "overflow to +-inf for astronomically large data is not modelled"]
 ASSUMPTIONS = ["finite inputs; floors, count floor, relevance factor > 0; fixed ratio < 1"]
+XCHECK = ['gmm', 'kmeans', 'ivector']
